@@ -155,7 +155,22 @@ def run_case(c):
     raise ValueError("unknown op " + op)
 
 
+def _earlier_call_with_custom_config():
+    """One earlier call with a caller-supplied solver configuration.  Every later call with default
+    settings must be unaffected by it: the property quantifies over inputs, not over what the
+    process did before (a configuration that leaks into the module defaults shows up as a
+    disagreement of every later Newton reconstruction)."""
+    try:
+        from ocean_science_utilities.wavespectra.estimators.mem2 import mem2
+        d = np.linspace(0, 2 * np.pi, 24, endpoint=False)
+        mem2(d, np.array([0.5]), np.array([0.3]), np.array([0.1]), np.array([0.05]), None, "newton",
+             {"atol": 0.1, "max_iter": 5.0})
+    except Exception:  # noqa
+        pass
+
+
 P = read_payload()
+_earlier_call_with_custom_config()
 out = []
 for case in P["cases"]:
     out.append(guarded(lambda: run_case(case)))
